@@ -1,0 +1,21 @@
+//go:build verif
+
+// Contracts for the deductive verifier in /verif (govc): the search-time
+// decoder of delta/varint posting lists never hangs or panics on corrupt bytes
+// (C11). Comment-only file, compiled only with -tags verif.
+
+package index
+
+// No precondition on the bytes: whatever the posting list contains, creating
+// the iterator does not panic.
+//@ func index.newCompressedPostingIterator
+//@   ensures result != nil && len(result.blob) <= len(b)
+
+// next: terminates on every blob (each round consumes at least one byte or
+// ends the list), never slices out of range, and only ever shortens the blob.
+//@ func index.(*compressedPostingIterator).next
+//@   requires i != nil
+//@   loop 1:
+//@     invariant len(i.blob) <= old(len(i.blob))
+//@     decreases len(i.blob)
+//@   ensures len(i.blob) <= old(len(i.blob))
